@@ -13,6 +13,7 @@ import (
 	"sort"
 	"strings"
 	"sync"
+	"sync/atomic"
 	"time"
 )
 
@@ -537,6 +538,9 @@ func (e *Engine) solveBatch(bi int, batch []*Obligation, workdir string) {
 }
 
 // solveAll discharges obligations in parallel.
+const failFastLimit = 24
+const notAttempted = "not attempted: the check had already failed (fail-fast after 24 failed obligations)"
+
 func (e *Engine) solveAll(obls []*Obligation, workdir string, timeout int, jobs int, thorough bool) {
 	os.MkdirAll(workdir, 0o755)
 	sem := make(chan struct{}, jobs)
@@ -583,6 +587,7 @@ func (e *Engine) solveAll(obls []*Obligation, workdir string, timeout int, jobs 
 			e.cache.flush()
 		}()
 	}
+	var failedCount int32
 	// pass 1: chains of obligations along one path are sent to one incremental z3 process each
 	if !thorough {
 		var batches [][]*Obligation
@@ -601,13 +606,22 @@ func (e *Engine) solveAll(obls []*Obligation, workdir string, timeout int, jobs 
 			batches = append(batches, cur)
 		}
 		var bw sync.WaitGroup
+		var batchUndecided int32
 		for bi, batch := range batches {
 			bw.Add(1)
 			go func(bi int, batch []*Obligation) {
 				defer bw.Done()
 				sem <- struct{}{}
 				defer func() { <-sem }()
+				if atomic.LoadInt32(&batchUndecided) >= 200 {
+					return // fail-fast: the check has already failed; the rest goes to the portfolio pass, which stops early too
+				}
 				e.solveBatch(bi, batch, workdir)
+				for _, o := range batch {
+					if o.Status != "discharged" {
+						atomic.AddInt32(&batchUndecided, 1)
+					}
+				}
 			}(bi, batch)
 		}
 		bw.Wait()
@@ -678,7 +692,17 @@ func (e *Engine) solveAll(obls []*Obligation, workdir string, timeout int, jobs 
 			defer wg.Done()
 			sem <- struct{}{}
 			defer func() { <-sem }()
+			// fail-fast (quick tier): once failFastLimit obligations have failed the verdict of the check is settled; the
+			// remaining undecided obligations are not attempted (reported as such, never as discharged)
+			if !thorough && atomic.LoadInt32(&failedCount) >= failFastLimit {
+				o.Status, o.Solver, o.NoModel = "failed", "none", false
+				o.Detail = notAttempted
+				return
+			}
 			e.solveOne(i, o, workdir, timeout, thorough)
+			if o.Status != "discharged" {
+				atomic.AddInt32(&failedCount, 1)
+			}
 		}(i, o)
 	}
 	wg.Wait()
